@@ -8,7 +8,7 @@ from simkit.oplang import need
 from simkit.model import scan
 from simkit.oracles.canon import named
 from simkit.oracles.links import check_links
-from simkit.oracles.mirror import check_mirror, check_self_contained
+from simkit.oracles.mirror import check_mirror, check_self_contained, check_wire_endpoints
 from simkit.simfs import norm
 from simkit.violation import Violation
 from simkit.world import World
@@ -291,6 +291,7 @@ class C15(Prop):
                 check_links(objs, disc, w.name_of, P="C15.half_built")
                 check_mirror(objs, disc, w.name_of, P="C15.half_built")
                 check_self_contained(n, objs, disc, w.name_of, "C15.half_built")
+                check_wire_endpoints(n, disc, w.name_of, P="C15.half_built")
             if facts.get("must_raise"):
                 kind = [a for a in facts["applied"] if a.startswith("dangling") or a == "unsupported"][0]
                 raise Violation("C15.%s_accepted" % ("unsupported" if kind == "unsupported" else "dangling"), kind,
